@@ -518,12 +518,23 @@ def b_getattr(it, args, kwargs, node):
 
 def b_enumerate(it, args, kwargs, node):
     v = it.resolve(args[0])
+    start = Lin.const(0)
+    sv = args[1] if len(args) > 1 else kwargs.get('start')
+    if sv is not None:
+        sl = it.as_lin(sv)
+        if sl is None:
+            it.note_unknown(node, 'enumerate with non-integer start')
+        else:
+            start = sl
     elem, ln = it.iter_element(v, node)
     idx = it.fresh('idx')
-    it.store.declare(idx, 0, None)
+    it.store.declare(idx, None, None)
+    it.store.assume_ge0(Lin.sym(idx) - start)
     if ln is not None:
-        it.store.cons.append(ln - 1 - Lin.sym(idx))
-    return IterV(TupleV([IntV(Lin.sym(idx)), elem]), src=v, desc='enumerate', length=ln)
+        it.store.assume_ge0(ln - 1 - (Lin.sym(idx) - start))
+    r = IterV(TupleV([IntV(Lin.sym(idx)), elem]), src=v, desc='enumerate', length=ln)
+    r.enum_start = start
+    return r
 
 
 def b_zip(it, args, kwargs, node):
